@@ -376,8 +376,9 @@ fn jtoken_to_runtime_object(
                 )?))));
             }
 
-            // List value
-            if prop == "list" {
+            // List value (a knot may be called "list" as well: then this is the
+            // terminating object of a container and the value is its content array)
+            if prop == "list" && !matches!(prop_value, JsonValue::Array) {
                 let list_content = parse_list(tok)?;
                 let mut raw_list = InkList::new();
 
@@ -415,7 +416,7 @@ fn jtoken_to_runtime_object(
             }
 
             // Used when serialising save state only
-            if prop == "originalChoicePath" {
+            if prop == "originalChoicePath" && !matches!(prop_value, JsonValue::Array) {
                 return Err(StoryError::BadJson(
                     "Choice objects in story content are not supported by the streaming loader."
                         .to_owned(),
